@@ -73,4 +73,33 @@ class UnsavableResult(object):
         raise RuntimeError('UnsavableResult cannot be serialised (scripted failure inside the cassette\'s save)')
 
 
+class Reentrant(object):
+    """A value whose serialisation calls back into the library (e.g. an archived payload that loads itself from another
+    recording when it is pickled): `hook` is installed by the driver around a save."""
+    hook = None
+
+    def __init__(self, n):
+        self.n = n
+
+    def __getstate__(self):
+        if Reentrant.hook is not None:
+            Reentrant.hook()
+        return {'n': self.n}
+
+    def __setstate__(self, state):
+        self.n = state['n']
+
+    def __eq__(self, other):
+        return type(other) is Reentrant and other.n == self.n
+
+    def __ne__(self, other):
+        return not self == other
+
+    def __hash__(self):
+        return hash(('Reentrant', self.n))
+
+    def __repr__(self):
+        return 'Reentrant(%r)' % (self.n,)
+
+
 EXC = {'E1': ScriptedError1, 'E2': ScriptedError2}
